@@ -83,6 +83,11 @@ def compare(kind, reading, seen, stats):
             if p:
                 return p
         return None
+    if kind == "names" and isinstance(reading, dict) and isinstance(seen, dict):
+        # a map from zone number to name: the entries of THIS payload, no more and no fewer
+        extra = sorted(set(seen) - set(reading))
+        if extra:
+            return f"decoded names for zones {extra[:6]} that this payload does not mention (payload has {sorted(reading)[:8]})"
     return compare_rec(kind, reading, seen, stats)
 
 
